@@ -107,10 +107,24 @@ def call_method(ex, st, recv, name, args, kwargs, node):
     if isinstance(recv, VSymCache):
         yield from symcache_method(ex, st, recv, name, args, kwargs, node)
         return
+    if isinstance(recv, VObj) and recv.cls == "Utf8Decoder":
+        yield from decoder_method(ex, st, recv, name, args, kwargs, node)
+        return
     if isinstance(recv, VStream):
         if name in ("append", "extend"):
             a = args[0]
-            if name == "append":
+            if name == "append" and getattr(recv.spec, "str_stream", False) and isinstance(a, VStr):
+                items = ex.iter_items(st, a)
+                if items is None:
+                    # the length may be fixed by the path condition (a slice between named indices)
+                    n = a.len()
+                    for k in range(0, 13):
+                        if ex.sol.check(n != k, timeout_ms=500) == z3.unsat:
+                            items = [V.char_at(st.ctx, a, V.iv(i)) for i in range(k)]
+                            break
+                if items is None:
+                    raise Unsupported("a string of symbolic length appended to the output list")
+            elif name == "append":
                 items = [a]
             elif isinstance(a, (VList, VTuple)):
                 items = list(a.items)
@@ -495,6 +509,11 @@ def m_split(ex, st, s, args, kwargs, node):
 
 def m_join(ex, st, s, args, kwargs, node):
     seq = args[0]
+    if isinstance(seq, VStream):
+        if seq.spec.stream_result is None or s.conc != "":
+            raise Unsupported("join of an output stream")
+        yield seq.spec.stream_result(ex, st, seq), st
+        return
     from . import plist
     if isinstance(seq, plist.VPList):
         yield from plist.join(ex, st, seq, s, node)
@@ -929,6 +948,122 @@ def p_segs_step(ex, st, args, kwargs, node):
 
 
 
+# ------------------------------------------------------------------ incremental UTF-8 decoder (C06)
+
+def new_decoder(ex, st, args, kwargs, node):
+    """codecs.getincrementaldecoder('utf-8')(): an object whose only state is the list of bytes it
+    holds back (`buffer`), initially empty"""
+    buf = VList([], fresh=True)
+    buf.bytes = True
+    ex.assumed_contracts.add("codecs: the incremental UTF-8 decoder -- decode(one byte) returns the character when the held-back "
+                             "bytes plus this byte are a well-formed sequence (Unicode Table 3-7), '' (keeping the byte) when they "
+                             "are a proper prefix of one, and raises UnicodeDecodeError leaving its buffer unchanged otherwise; "
+                             "reset() empties the buffer (cross-checked by the bounded stand-in of C06)")
+    yield VObj("Utf8Decoder", {"buffer": buf}, fresh=True), st
+
+
+def _utf8_status(bs):
+    """(complete, prefix, code point term) for 1..4 byte terms"""
+    b0 = bs[0]
+    n = len(bs)
+
+    def rng(x, lo, hi):
+        return z3.And(x >= lo, x <= hi)
+    need = z3.If(b0 < 128, 0, z3.If(rng(b0, 194, 223), 1, z3.If(rng(b0, 224, 239), 2, z3.If(rng(b0, 240, 244), 3, -1))))
+
+    def cont_ok(i, b):
+        if i == 1:
+            return z3.If(b0 == 224, rng(b, 160, 191), z3.If(b0 == 237, rng(b, 128, 159),
+                         z3.If(b0 == 240, rng(b, 144, 191), z3.If(b0 == 244, rng(b, 128, 143), rng(b, 128, 191)))))
+        return rng(b, 128, 191)
+    def cont_held(i, b):
+        # CPython holds ED A0..BF back until the third byte (contracts/spec_unquote.py:cont_held)
+        if i == 1:
+            return z3.If(b0 == 237, rng(b, 128, 191), cont_ok(i, b))
+        return cont_ok(i, b)
+    conts = z3.And([cont_ok(i, bs[i]) for i in range(1, n)] + [z3.BoolVal(True)])
+    held = z3.And([cont_held(i, bs[i]) for i in range(1, n)] + [z3.BoolVal(True)])
+    complete = z3.And(need == n - 1, conts)
+    prefix = z3.And(need > n - 1, held)
+    if n == 1:
+        cp = b0
+    elif n == 2:
+        cp = (b0 - 192) * 64 + (bs[1] - 128)
+    elif n == 3:
+        cp = (b0 - 224) * 4096 + (bs[1] - 128) * 64 + (bs[2] - 128)
+    else:
+        cp = (b0 - 240) * 262144 + (bs[1] - 128) * 4096 + (bs[2] - 128) * 64 + (bs[3] - 128)
+    return complete, prefix, cp
+
+
+def decoder_method(ex, st, dec, name, args, kwargs, node):
+    buf = dec.fields["buffer"]
+    if name == "reset" and not args:
+        ex.check_frame(st, dec, node)
+        nb = VList([], fresh=True)
+        nb.bytes = True
+        dec.fields["buffer"] = nb
+        yield NONE, st
+        return
+    if name == "decode" and len(args) == 1 and isinstance(args[0], VList) and len(args[0].items) == 1:
+        bs = [x.t for x in buf.items] + [args[0].items[0].t]
+        if len(bs) > 4:
+            raise Unsupported("incremental decoder holding more than three bytes")
+        complete, prefix, cp = _utf8_status(bs)
+        ok = z3.Or(complete, prefix)
+        for kind, s2 in ex.raise_or_oblige(st, UnicodeDecodeError, ok, "utf-8-decodable", node):
+            if kind != "ok":
+                yield _raised()(VExc(UnicodeDecodeError)), s2
+                continue
+            for b, s3 in ex.branch(s2, complete):
+                d3 = s3.tr(dec)
+                nb = VList([], fresh=True) if b else VList([VInt(t) for t in bs], fresh=True)
+                nb.bytes = True
+                d3.fields["buffer"] = nb
+                if b:
+                    r = V.fresh_str(s3.ctx, "dec")
+                    s3.ctx.add(r.len() == 1, r.a[0] == V.name_term(s3.ctx, cp, "cp"))
+                    yield VStr(r.a, 0, 1), s3
+                else:
+                    yield lit(""), s3
+        return
+    raise Unsupported(f"decoder.{name}")
+
+
+def b_bytes(ex, st, args, kwargs, node):
+    if len(args) == 1 and isinstance(args[0], VList) and all(isinstance(x, VInt) for x in args[0].items):
+        r = VList(list(args[0].items), fresh=True)
+        r.bytes = True
+        yield r, st
+        return
+    raise Unsupported("bytes(...) of this argument")
+
+
+def inner_requoter(qs):
+    """the unquoter's inner quoters on one character (finite obligation in contracts/finite_unquote.py
+    checks the real objects against contracts.spec_unquote.requote_one)"""
+    def fn(ex, st, args, kwargs, node):
+        from contracts import spec_unquote
+        x = args[0]
+        if not (isinstance(x, VStr) and z3.is_true(z3.simplify(x.len() == 1))):
+            raise Unsupported("inner quoter applied to something else than one character")
+        c = ex.char_code(x)
+        dom = [43, 61, 38, 59] if qs else list(range(128))
+        ex.oblige(st, "inner-quoter:argument-in-the-finitely-checked-domain", "pre", V.in_set(c, dom), node, {})
+        lits = sorted(ord(ch) for ch in spec_unquote.GENERIC_LITERALS if not (qs and ch in "+&=;"))
+        for b, s2 in ex.branch(st, V.in_set(c, lits)):
+            if b:
+                yield x, s2
+            else:
+                r = V.fresh_str(s2.ctx, "rq")
+
+                def hx(d):
+                    return z3.If(d < 10, d + 48, d + 55)
+                s2.ctx.add(r.len() == 3, r.a[0] == 37, r.a[1] == hx(c / 16), r.a[2] == hx(c % 16))
+                yield VStr(r.a, 0, 3), s2
+    return fn
+
+
 # ------------------------------------------------------------------ host canonicalisation (C16)
 
 REGNAME_CODES = sorted(ord(c) for c in "abcdefghijklmnopqrstuvwxyz0123456789-._~!$&'()*+,;=")
@@ -1165,10 +1300,15 @@ def unquoter_contract(name):
     return fn
 
 
+EXTRA_PRIMS = []      # (object, name, fn): registered by contracts/registry.py for objects it creates
+
+
 def install(ex):
     from .engine import Prim
     import unicodedata
     reg = ex.native_by_id
+    for _obj, _name, _fn in EXTRA_PRIMS:
+        reg[id(_obj)] = Prim(_name, _fn)
 
     def add(obj, name, fn):
         reg[id(obj)] = Prim(name, fn)
@@ -1188,6 +1328,14 @@ def install(ex):
     add(builtins.enumerate, "enumerate", b_enumerate)
     add(builtins.hash, "hash", b_hash)
     add(builtins.chr, "chr", b_chr)
+    add(builtins.bytes, "bytes", b_bytes)
+    try:
+        import typing
+        import yarl._quoting_py as _qpy
+        add(typing.cast, "typing.cast", lambda ex, st, args, kwargs, node: iter([(args[1], st)]))
+        add(_qpy.utf8_decoder, "utf8_decoder", new_decoder)
+    except ImportError:
+        pass
     add(re.match, "re.match", re_match)
     add(unicodedata.normalize, "unicodedata.normalize", ud_normalize)
     try:
@@ -1221,6 +1369,12 @@ def install(ex):
             lambda ex, st, args, kwargs, node: iter([(ex.wrap(_sq.skippable_text(args[0].obj)), st)]))
         add(_sq.component_alphabet, "spec.component_alphabet",
             lambda ex, st, args, kwargs, node: iter([(ex.wrap(_sq.component_alphabet(args[0].obj)), st)]))
+    except ImportError:
+        pass
+    try:
+        from contracts import spec_unquote as _su
+        add(_su.config_of, "spec.unquote_config_of",
+            lambda ex, st, args, kwargs, node: iter([(ex.wrap(_su.config_of(args[0].obj)), st)]))
     except ImportError:
         pass
     try:
